@@ -62,8 +62,15 @@ def loop_trip_count(f, call_short, recv_canon):
               and lb_id in _reach(f, e.block)]
     if len(in_body) != 1:
         return None, 'loop body makes %d calls' % len(in_body)
+    # the bound must not change while the loop runs: a bound that reads the object the body's call modifies is re-evaluated
+    # after every call and moves with it
+    if bound.get('k') != 'local':
+        reads = {sym.canon(st.get('recv') or {}) for st in subterms(bound) if isinstance(st, dict) and st.get('k') == 'call'} | \
+                {sym.canon(st) for st in subterms(bound) if isinstance(st, dict) and st.get('k') == 'member'}
+        if any(r == recv_canon or r.startswith(recv_canon + '.') for r in reads):
+            return 'VARIANT', 'the loop bound `%s` reads %s, which every %s() call in the body changes' % (sym.canon(bound, {0: 'm'})[:80], recv_canon, call_short)
     # bound local -> its definition
-    bound_c = sym.canon(bound)
+    bound_c = sym.canon(bound, {0: 'm'})
     if bound.get('k') == 'local':
         for e in f.events():
             if e['ev'] == 'decl':
@@ -119,7 +126,9 @@ def check_stack(run, db):
         cnt, how = loop_trip_count(unw, 'deallocate_block', 'this.arena_')
         site = {'function': 'memory_stack::unwind', 'role': 'blocks dropped == index difference'}
         want = {'(%s - $m.index)' % idx}
-        if cnt is None:
+        if cnt == 'VARIANT':
+            run.violation('R-TERM.index', inst, unw.loc, how + ': the bound shrinks as blocks are dropped, so fewer than (current index - m.index) blocks are released', site=site)
+        elif cnt is None:
             run.broke('unwind of %s: %s' % (strip_ns(cls), how))
         elif cnt in want:
             run.ok('R-TERM.index', inst, unw.loc, 'unwind returns %s blocks; top() stores index %s' % (cnt, idx))
@@ -130,29 +139,29 @@ def check_stack(run, db):
         S = [s for s in fwd.summarize(unw, db=db, roles={0: 'm'}, no_forward=True) if s.end == 'return']
         probs = []
         for s in S:
-            cross = any(c[1].get('short') == 'deallocate_block' for c in s.calls)
             names = [c[1].get('short') for c in s.calls]
-            if cross:
-                sets = [c for c in s.calls if c[0] == 'this.stack_.operator=(detail::fixed_memory_stack{$m.top})']
-                if len(sets) != 1:
-                    probs.append('cross-block branch does not set stack_ to fixed_memory_stack(m.top)')
+            sets = [c for c in s.calls if c[0] == 'this.stack_.operator=(detail::fixed_memory_stack{$m.top})']
+            uw = [c for c in s.calls if c[0] == 'this.stack_.unwind($m.top)']
+            drops = 'deallocate_block' in names
+            # the branch is identified by what it does to stack_ (a counted loop may run zero times on an enumerated path)
+            if len(sets) == 1 and not uw:
                 if build.CONFIGS[db.config]['FOONATHAN_MEMORY_DEBUG_POINTER_CHECK']:
                     chk = [i for i, c in enumerate(s.calls) if c[1].get('short') == 'debug_check_pointer']
-                    first_dealloc = names.index('deallocate_block')
-                    if not chk or chk[0] > first_dealloc:
+                    if drops and (not chk or chk[0] > names.index('deallocate_block')):
                         probs.append('the marker index is not checked before the first block is dropped')
-                    if sets and len(chk) >= 2 and chk[1] > s.calls.index(sets[0]):
+                    if len(chk) >= 2 and chk[1] > s.calls.index(sets[0]):
                         probs.append('the marker end is checked after stack_ was replaced')
                     if len(chk) < 2:
                         probs.append('the marker end is not checked on the cross-block branch')
-            else:
-                uw = [c for c in s.calls if c[0] == 'this.stack_.unwind($m.top)']
-                if len(uw) != 1:
-                    probs.append('same-block branch does not unwind stack_ to m.top')
+            elif len(uw) == 1 and not sets and not drops:
                 if build.CONFIGS[db.config]['FOONATHAN_MEMORY_DEBUG_POINTER_CHECK']:
                     chk = [i for i, c in enumerate(s.calls) if c[1].get('short') == 'debug_check_pointer']
-                    if uw and (len(chk) < 2 or chk[-1] > s.calls.index(uw[0])):
+                    if len(chk) < 2 or chk[-1] > s.calls.index(uw[0]):
                         probs.append('the marker top is not checked before the stack is unwound')
+            elif drops:
+                probs.append('cross-block branch does not set stack_ to fixed_memory_stack(m.top)')
+            else:
+                probs.append('same-block branch does not unwind stack_ to m.top')
         if probs:
             run.violation('R-UNWIND.top', inst, unw.loc, '; '.join(sorted(set(probs))), site={'function': 'memory_stack::unwind', 'role': 'stack_ ends at m.top after the checks'})
         else:
